@@ -86,6 +86,7 @@ def rules(ctx):
     c083(ctx)
     c084(ctx)
     c085(ctx)
+    c086(ctx)
 
 
 def c081(ctx):
@@ -414,3 +415,48 @@ def c085(ctx, R="C08.5"):
         if f:
             escape_check(ctx, R, f, r"lsmtk::tree::VersionRef<", "the scan's VersionRef is dropped before the cursor is returned: "
                          "compaction can move the snapshot's not-yet-opened SSTs to trash/ (and the verifier unlink them) under a live cursor")
+
+
+# ------------------------------------------------------------------------------------------------
+# C08.6 a new version is derived from the version that is current when it is installed
+
+def c086(ctx, R="C08.6"):
+    ctx.declare(R, "a version is installed on top of the version read in the same critical section: after every wait that releases the "
+                   "tree lock the base version is read again before it is used (a stale base drops the outputs of compactions committed "
+                   "meanwhile, and releasing it retires files the manifest lists)")
+    n = 0
+    for name, derive in (("apply_manifest_ingest", r"lsmtk::tree::Version::ingest$"),
+                         ("apply_manifest_compaction", r"lsmtk::tree::Version::(compact|apply_compaction|install_compaction)\w*$"),
+                         ("apply_moving_compaction", r"lsmtk::tree::Version::\w+$")):
+        f = ctx.fn(R, TREE + name)
+        if not f:
+            continue
+        ins = ctx.calls(R, f, r"lsmtk::tree::LsmTree::install_version$")
+        waits = P.call_points(f, r"Condvar::wait(_while|_timeout)?$")
+        snaps = P.call_points(f, r"lsmtk::tree::LsmTree::take_snapshot$")
+        # the call that derives the new version: the one whose result (through Arc::new etc.) is installed
+        der = []
+        for i_ in ins:
+            for s_ in P.origins(f, P.term_at(f, i_)["args"][1]):
+                if s_["k"] == "call" and s_["callee"].startswith("lsmtk::tree::Version::") and not P.TRANSPARENT.search(s_["callee"]):
+                    der.append(s_["pt"])
+        der = sorted(set(der))
+        if not ctx.floor(R, name + ": derivation of the installed version", len(der), 1):
+            continue
+        for dpt in der:
+            n += 1
+            t = P.term_at(f, dpt)
+            base = [s_["pt"] for s_ in P.origins(f, t["args"][0]) if s_["k"] == "call" and s_["callee"].endswith("LsmTree::take_snapshot")]
+            ctx.check(R, f, "base-is-snapshot", bool(base), "%s derives the new version from a take_snapshot() of the tree" % P.short(callee_skey(t)),
+                      "the base of the installed version is not a snapshot of the current version", pt=dpt)
+            h = P.held(ctx.prog, f)
+            ctx.check(R, f, "held:derive", "LsmTree.compaction" in h.locks_at(dpt, must=True), "derived with LsmTree.compaction held",
+                      "the new version is derived without holding LsmTree.compaction", pt=dpt)
+            for w in waits:
+                q = P.reach(f, P.after(f, w), [dpt], avoid=set(base))
+                ctx.check(R, f, "reread-after-wait", q is None,
+                          "after the stall wait the base version is read again before the new version is derived from it",
+                          "the new version can be derived from a snapshot taken before the stall wait (which releases the tree lock): compactions "
+                          "committed meanwhile are missing from the installed version, and releasing the superseded version retires their outputs "
+                          "although the manifest lists them", pt=w, path=q)
+    ctx.floor(R, "installed-version derivations", n, 2)
